@@ -6,11 +6,16 @@ package main
 // rewritten by the dialect map of coq/Spec/Dialect.v ($n -> ?n, `::type` casts dropped, the `locks.` qualifier
 // dropped) before SQLite prepares it.  Props/C17.v proves that under this map every Postgres statement IS the SQLite
 // statement, except five structurally different ones (table creation / drop, the two tag searches, the enqueueable
-// selection): the harness creates the tables with the SQLite schema and never sends those three commands here.
+// selection): the harness creates the tables with the SQLite schema and never sends the enqueueable selection here.
+// The two tag searches DO run here: their only Postgres-specific operator, `tags @> $n` (JSON containment of a flat
+// string map), is rewritten to a function registered on the SQLite connection (pg_contains), so that the Go code
+// around the statement - pattern conversion, state mask, argument order, scanning - is exercised.
 
 import (
 	"database/sql"
 	"database/sql/driver"
+	"encoding/json"
+	"regexp"
 	"strings"
 
 	sqlite3 "github.com/mattn/go-sqlite3"
@@ -65,7 +70,48 @@ func pgToSqlite(q string) string {
 			i++
 		}
 	}
-	return sb.String()
+	return containsRe.ReplaceAllString(sb.String(), "pg_contains($1, $2)")
 }
 
-func init() { sql.Register("pgshim", &pgShimDriver{inner: &sqlite3.SQLiteDriver{}}) }
+var containsRe = regexp.MustCompile(`(\w+)\s*@>\s*(\?\d+)`)
+
+// pgContains is `a @> b` for JSON objects with string values: every pair of b is a pair of a (NULL operands: false)
+func pgContains(a, b any) bool {
+	as, ok1 := toStr(a)
+	bs, ok2 := toStr(b)
+	if !ok1 || !ok2 {
+		return false
+	}
+	var am, bm map[string]any
+	if json.Unmarshal([]byte(as), &am) != nil || json.Unmarshal([]byte(bs), &bm) != nil {
+		return false
+	}
+	for k, v := range bm {
+		w, ok := am[k]
+		if !ok {
+			return false
+		}
+		x, _ := json.Marshal(v)
+		y, _ := json.Marshal(w)
+		if string(x) != string(y) {
+			return false
+		}
+	}
+	return true
+}
+
+func toStr(v any) (string, bool) {
+	switch x := v.(type) {
+	case string:
+		return x, true
+	case []byte:
+		return string(x), true
+	}
+	return "", false
+}
+
+func init() {
+	sql.Register("pgshim", &pgShimDriver{inner: &sqlite3.SQLiteDriver{ConnectHook: func(c *sqlite3.SQLiteConn) error {
+		return c.RegisterFunc("pg_contains", pgContains, true)
+	}}})
+}
